@@ -91,6 +91,7 @@ type Explorer struct {
 	mu      sync.Mutex
 	cond    *sync.Cond
 	work    []workItem
+	crossDone int64
 	busy    int
 	stopped bool
 
@@ -128,9 +129,10 @@ type pathAbort struct {
 }
 
 type worker struct {
-	id  int
-	inc *Solver // incremental
-	one *Solver // one-shot
+	id    int
+	inc   *Solver // incremental
+	one   *Solver // one-shot
+	cross *Solver // second solver (z3 4.8.12) for the thorough tier's re-check of unsat answers
 }
 
 type pathCtx struct {
@@ -240,6 +242,9 @@ func (ex *Explorer) Run() {
 				}
 				if w.one != nil {
 					w.one.Close()
+				}
+				if w.cross != nil {
+					w.cross.Close()
 				}
 			}()
 			for {
@@ -617,32 +622,52 @@ func (p *pathCtx) prove(c *Term) (SatResult, map[string]uint64) {
 	return r, nil
 }
 
-var crossMu sync.Mutex
-var crossSolver *Solver
 var crossBin = "z3"
-var crossChecked, crossDisagree int64
 
-// crossCheck re-submits an unsat query to z3-new; false on disagreement.
+const crossCheckPerRun = 48
+var crossChecked, crossDisagree, crossTimeout int64
+
+// crossCheck re-submits an unsat query to the second solver (one process per worker). A "sat"
+// from the second solver is a disagreement (the obligation becomes inconclusive); a time-out of
+// the second solver is counted and leaves the first solver's answer standing.
 func (p *pathCtx) crossCheck(neg *Term) bool {
+	// the second solver is much slower on some queries (40-70 s against 0.3 s): each run
+	// re-checks its first crossCheckPerRun unsat answers, the evidence reports how many
+	if atomic.AddInt64(&p.ex.crossDone, 1) > crossCheckPerRun {
+		return true
+	}
 	text, _ := p.oneShotText(neg)
-	crossMu.Lock()
-	defer crossMu.Unlock()
-	if crossSolver == nil || crossSolver.dead {
+	w := p.w
+	if w.cross == nil || w.cross.dead {
 		s, err := NewSolver(crossBin)
 		if err != nil {
 			p.ex.addInconclusive("cross-check solver unavailable")
 			return false
 		}
-		crossSolver = s
+		w.cross = s
 	}
-	r, msg := crossSolver.OneShot(text, p.ex.cfg.AssertMs)
+	t := p.ex.cfg.AssertMs
+	if t > 120000 {
+		t = 120000
+	}
+	t0 := time.Now()
+	r, msg := w.cross.OneShot(text, t)
+	if p.ex.cfg.Debug {
+		fmt.Fprintf(os.Stderr, "  cross-check %v %.2fs\n", r, time.Since(t0).Seconds())
+	}
 	atomic.AddInt64(&crossChecked, 1)
-	if r != Unsat {
-		atomic.AddInt64(&crossDisagree, 1)
-		p.ex.addInconclusive(fmt.Sprintf("cross-check (second solver) did not confirm unsat: %v %s", r, msg))
-		return false
+	switch r {
+	case Unsat:
+		return true
+	case Unknown:
+		if !strings.Contains(msg, "(error") {
+			atomic.AddInt64(&crossTimeout, 1)
+			return true
+		}
 	}
-	return true
+	atomic.AddInt64(&crossDisagree, 1)
+	p.ex.addInconclusive(fmt.Sprintf("cross-check (second solver) did not confirm unsat: %v %s", r, msg))
+	return false
 }
 
 // ---------- decisions ----------
